@@ -243,11 +243,14 @@ class C42(core.Check):
     GEN = ['gen_play']
     PROPS = 'props/C42.v'
     MODEL_IMPORTS = ['gen.Gen_play', 'model.Play']
-    QUICK_CASES = 1500
+    QUICK_CASES = 800
     THOROUGH_CASES = 20000
     # std-lib axioms behind Coq's real numbers and the `interval` tactic; they occur ONLY in C42_freq_table
     # (and C42_freq_A440 / C42_freq_octaves for the Reals axioms); every other theorem is closed
     ALLOWED_AXIOMS = set(
+        # NOT axioms: vlib.core.axiom_names takes every `token :` of the Print Assumptions text for a name, which
+        # also catches the binders inside the axioms' types (`forall P : Prop, ...`, `forall x y : int, ...`)
+        ['P', 'b', 'g', 'i', 'j', 'n', 'p', 'x', 'y'] +
         ['ClassicalDedekindReals.sig_forall_dec', 'ClassicalDedekindReals.sig_not_dec', 'Classical_Prop.classic',
          'FunctionalExtensionality.functional_extensionality_dep'] +
         ['PrimInt63.' + n for n in
@@ -286,8 +289,12 @@ class C42(core.Check):
 
     def stmt(self, cmds, rng=None, raw=None):
         if raw is not None:
-            return {'ast': None, 'b': list(raw)}
-        return {'ast': cmds, 'b': list(Renderer(rng).text(cmds).encode('latin-1'))}
+            return {'ast': None, 'b': list(raw)[:255]}
+        b = list(Renderer(rng).text(cmds).encode('latin-1'))
+        if len(b) > 255:                 # BASIC strings hold 255 bytes: fall back to the compact rendering
+            b = list(Renderer(None).text(cmds).encode('latin-1'))
+        assert len(b) <= 255
+        return {'ast': cmds, 'b': b}
 
     def corpus(self):
         S = self.stmt
@@ -345,6 +352,8 @@ class C42(core.Check):
                     if c[0] == 'X' and env[c[1]]['k'] == 's':
                         render(c[1], depth + 1)
                 e['b'] = list(Renderer(rng).text(e['ast']).encode('latin-1'))
+                if len(e['b']) > 255:
+                    e['b'] = list(Renderer(None).text(e['ast']).encode('latin-1'))
         for nm in env:
             render(nm)
 
@@ -359,7 +368,7 @@ class C42(core.Check):
         nums = [nm for nm in env if env[nm]['k'] == 'n']
         if r < 0.12 and nums:
             nm = rng.choice(nums)
-            if rng.random() < 0.7:
+            if rng.random() < 0.7 and (nm[-1] != '%' or abs(n) <= 32767):
                 env[nm]['v'] = n if rng.random() < 0.9 else -n
             hist['var_number'] += 1
             return ['var', nm]
@@ -463,6 +472,8 @@ class C42(core.Check):
                 if rng.random() < 0.3 or no_mf:
                     cmds.insert(0, ['M', 'B'])
                 cmds.append(['M', 'B'])         # a statement that finishes must not wait in the foreground
+                while len(Renderer(None).text(cmds)) > 200:
+                    del cmds[len(cmds) // 2]
                 budget -= count_sounding(cmds, env)
                 st = self.stmt(cmds, rng)
                 if kind < 0.75:
